@@ -200,6 +200,14 @@ func (r *Report) Violate(kind, msg string, replay any) {
 	}
 }
 
+// IsKnown reports whether kind names an active known finding (monitors keep exploring past those).
+func (r *Report) IsKnown(kind string) bool {
+	r.mu.Lock()
+	defer r.mu.Unlock()
+	_, ok := r.known[kind]
+	return ok
+}
+
 func (r *Report) NumViolations() int {
 	r.mu.Lock()
 	defer r.mu.Unlock()
